@@ -39,7 +39,7 @@ ALL_LEAF = (['SingleQubitOperation', 'Reset'] + CHANNELLED + SINGLE_MW + ['Virtu
 DUR_SETTABLE = {'SingleQubitOperation', 'Wait', 'TwoQubitOperation', 'VirtualVacant', 'VirtualTwoQubitVacant',
                 'VirtualEmpty'}
 NO_RELATION_ARG = {'Barrier', 'CoordinateShiftOperation'}
-OBSERVERS = {'list', 'dur', 'chans', 'reps', 'copyobs', 'collisions', 'ops'}
+OBSERVERS = {'list', 'dur', 'chans', 'reps', 'copyobs', 'collisions', 'ops', 'evalcheck'}
 
 
 # ----------------------------------------------------------------------------- serialisation for Lean
@@ -426,8 +426,8 @@ class ImplRun:
             cp = self.circs[cmd[1]].circuit_structure.copy()
             rows = [show_op(o) for o in cp.decomposed_operations()]
             return ';'.join(rows) + f' # {to_units(cp.duration)}'
-        elif k == 'collisions':
-            return None   # model-only diagnostic
+        elif k in ('collisions', 'evalcheck'):
+            return None   # model-only diagnostics
         elif k == 'chans':
             return show_chans(self.circs[cmd[1]].occupied_qubit_channels)
         elif k == 'reps':
